@@ -167,6 +167,9 @@ func trIsError(ty types.Type) bool {
 // leanType translates a Go type as seen from unit `from`; declarations of named knut types are emitted on demand.
 func (t *trTranslator) leanType(from *trUnit, ty types.Type, pos token.Pos) string {
 	ty = trUnalias(ty)
+	if trIsDropped(ty) {
+		trFail(pos, "type %s is not part of the translated state (trans_units_mapping.go)", ty)
+	}
 	switch {
 	case trIsTime(ty):
 		return "Int"
@@ -471,7 +474,9 @@ func (t *trTranslator) needType(u *trUnit, n *types.Named, pos token.Pos) {
 						ft = ""
 					}
 				}()
-				ft = t.leanType(u, f.Type(), f.Pos())
+				if !trKeepOmitted[obj.Pkg().Path()+"."+obj.Name()+"."+f.Name()] { // else omitted by decision (trans_units_mapping.go)
+					ft = t.leanType(u, f.Type(), f.Pos())
+				}
 			}()
 			if ft != "" && trNilable[obj.Pkg().Path()+"."+obj.Name()+"."+f.Name()] {
 				ft = "(Option " + ft + ")" // none = nil: the code observes the nil-ness of this slice (trans_units_jprinter.go)
